@@ -5,11 +5,14 @@
 //   The stream buffer logs every count that std::istream::read hands down (streambuf::xsgetn), so "the payload read was
 //   given a negative / bogus byte count" is observed on the real code, not inferred.
 // usage: C15_replay corrupt_dim   (writes an empty (0,3) tensor with the real writer, alters one header byte, reads it back)
+// usage: C15_replay big_dim <n>   (writes a rank-1 tensor of n one-byte scalars with the real writer, inspects the header)
 // exit 1: the property is violated (accepted with invalid dims, or a negative count reached istream::read); 0 otherwise
 #include <nano/tensor/stream.h>
 #include <cstdio>
 #include <cstdlib>
 #include <cstring>
+#include <algorithm>
+#include <ostream>
 #include <sstream>
 #include <streambuf>
 #include <vector>
@@ -81,8 +84,39 @@ int corrupt_dim()
     return (accepted && r.dims() != w.dims()) ? 1 : 0;
 }
 
+// a live rank-1 tensor of `n` one-byte scalars (a lazily zero-mapped block) is written with the REAL writer into a sink that
+// keeps the header only; the property: the dimension stored in the header is the tensor's dimension
+struct headbuf_t final : std::streambuf
+{
+    std::streamsize xsputn(const char* s, std::streamsize n) override
+    {
+        if (m_head.size() < 64) m_head.append(s, static_cast<size_t>(std::min<std::streamsize>(n, static_cast<std::streamsize>(64 - m_head.size()))));
+        m_total += n;
+        return n;
+    }
+    int         overflow(int c) override { ++m_total; return c; }
+    std::string m_head;
+    long long   m_total{0};
+};
+int big_dim(const long long n)
+{
+    auto* p = static_cast<int8_t*>(std::calloc(static_cast<size_t>(n), 1));
+    if (p == nullptr) { std::printf("{\"error\": \"cannot map %lld bytes\"}\n", n); return 2; }
+    const auto   t = map_tensor(static_cast<const int8_t*>(p), static_cast<tensor_size_t>(n));
+    headbuf_t    buf;
+    std::ostream os(&buf);
+    const bool   ok = static_cast<bool>(::nano::write(os, t));
+    int32_t      d0 = 0;
+    if (buf.m_head.size() >= 12) std::memcpy(&d0, buf.m_head.data() + 8, 4);
+    std::printf("{\"tensor_dim\": %lld, \"write_reported_success\": %s, \"bytes_written\": %lld, \"dim_stored_in_header\": %d}\n",
+                static_cast<long long>(t.size()), ok ? "true" : "false", buf.m_total, d0);
+    std::free(p);
+    return (ok && static_cast<long long>(d0) != static_cast<long long>(t.size())) ? 1 : 0;
+}
+
 int main(int argc, char** argv)
 {
+    if (argc == 3 && std::strcmp(argv[1], "big_dim") == 0) return big_dim(std::atoll(argv[2]));
     if (argc >= 2 && std::strcmp(argv[1], "corrupt_dim") == 0) return corrupt_dim();
     if (argc < 5 || std::strcmp(argv[1], "tensor") != 0) return 2;
     const std::string scalar = argv[2];
